@@ -19,6 +19,15 @@ m = {
   {"name": "go-harness", "path": "harness/", "serves_properties": sorted(registry.PROPS), "kind_free_text": "drives the real code (testing/synctest lock-step, scripted transports, tagged exports and yield points), prints observations as Coq terms"}],
  "checks": [], "notes": "see DESIGN.md; known findings and fix commits in KNOWN_FINDINGS.txt; seeded changes in seeded/",
  "not_applicable": []}
+# the independent audit's one-line verdict per property (docs/COVERAGE.md, one-page summary) goes into level_note
+import re
+audit = {}
+try:
+    for l in open(os.path.join(ROOT, "docs", "COVERAGE.md")):
+        mm = re.match(r"\|\s*(C\d\d)\s*\|\s*(.*?)\s*\|\s*$", l)
+        if mm and mm.group(1) not in audit: audit[mm.group(1)] = mm.group(2)
+        if l.startswith("## Reason codes"): break
+except Exception: pass
 for p in props:
     pid = p["id"]
     if pid in registry.PROPS:
@@ -27,7 +36,7 @@ for p in props:
             "property_id": pid, "quick_cmd": "./check %s --tier quick" % pid, "thorough_cmd": "./check %s --tier thorough" % pid,
             "evidence_file": "evidence/%s.json" % pid, "replay_cmd_template": "./check %s --replay {path}" % pid, "engine": "coq-model",
             "level_claimed": {"category": "proof", "text": c["claim"], "design_ref": "DESIGN.md section 5 (%s)" % pid},
-            "level_note": c.get("level_note", "Closed under the global context (no axioms). Trusted: Coq 8.16.1 kernel + vm_compute; the Go harness, synctest and the tagged hooks (tie, not proof); libraries and runtime modelled rather than verified: " + "; ".join(c.get("assumptions", []))),
+            "level_note": ("Independent audit (docs/COVERAGE.md): " + audit[pid] + " || " if pid in audit else "") + c.get("level_note", "Closed under the global context (no axioms). Trusted: Coq 8.16.1 kernel + vm_compute; the Go harness, synctest and the tagged hooks (tie, not proof); libraries and runtime modelled rather than verified: " + "; ".join(c.get("assumptions", []))),
             "technique": c.get("technique", "Rocq proof over a hand-written Gallina model + differential correspondence check (vm_compute on cases observed on the real code)")})
     else:
         m["not_applicable"].append({"property_id": pid, "reason": registry.PENDING.get(pid, "check under construction in this session: claimed in DESIGN.md, moves to checks[] when its machinery is committed")})
